@@ -1,9 +1,9 @@
 SPECIFICATION Spec
 CONSTANTS
-  MaxLen = 4
-  Kinds <- TwoKinds
+  MaxLen = 3
+  Kinds <- AllKinds
   Outcomes <- AllSix
-  Tags <- NoTags
+  Tags <- BothTags
   MayToggle = TRUE
   MayAbort = TRUE
   Dev_S17_RowLostNotSerialisable = FALSE
